@@ -34,6 +34,32 @@ CONTAINER_FAMILIES = {"list", "deque", "set", "frozenset", "sequence", "vartuple
                       "defaultdict", "chainmap", "mappingproxy", "counter", "namedtuple", "typeddict", "namedtuple-defaults"}
 
 
+def _no_copy_sources(repo: Repo, rep: Report) -> None:
+    """R18.7: `no_copy_collections` of a ValueSpec comes from exactly one place -- the dialect / Config option lookup when
+    the root spec of a field or codec shape is created.  Any other keyword `no_copy_collections=` (a spec.copy(...) that
+    forces it for an intermediate value) makes results alias the object's own containers under the default dialect."""
+    from ..core.srcmodel import walk_no_nested
+
+    n = 0
+    for key, fi in sorted(repo.funcs.items()):
+        if not fi.module.startswith("mashumaro") or fi.module.startswith("mashumaro.jsonschema"):
+            continue
+        for node in walk_no_nested(fi.node):
+            if isinstance(node, ast.Call):
+                for k in node.keywords:
+                    if k.arg == "no_copy_collections":
+                        n += 1
+                        v = ast.unparse(k.value)
+                        if "get_dialect_or_config_option('no_copy_collections'" in v.replace('"', "'") or v in ("spec.no_copy_collections",):
+                            rep.ok("R18.7", f"{fi.qualname}: no_copy_collections={v[:60]}", None)
+                        else:
+                            rep.violation("R18.7", fi.key, f"{fi.qualname} forces no_copy_collections={v[:60]}",
+                                          "collections at and below this position are handed out without a copy whatever the dialect says: the result shares containers with the object "
+                                          "(or the input) and mutating one mutates the other", loc=f"{fi.loc.split(':')[0]}:{node.lineno}")
+    if n < 2:
+        rep.error(f"R18.7: only {n} no_copy_collections keyword sites")
+
+
 def run(repo: Repo, rep: Report, tier: str) -> None:
     # R18.1
     for no_copy in ((), (list, dict)):
@@ -140,8 +166,11 @@ def run(repo: Repo, rep: Report, tier: str) -> None:
     from ..core.report import Only
     from . import c14 as _c14
     _c14._ownership(repo, Only(rep, {"R14.8", "R14.9"}))
-
+    _no_copy_sources(repo, rep)
 
 _ADDENDUM = ' Borrowed: R14.8 / R14.9 (no write into borrowed containers, no builder store shared across codecs).'
 EXPLANATION += _ADDENDUM
 LEVEL_TEXT += _ADDENDUM
+_ADD13 = ' R18.7: no_copy_collections reaches a ValueSpec only from the dialect / Config option lookup.'
+EXPLANATION += _ADD13
+LEVEL_TEXT += _ADD13
